@@ -681,10 +681,96 @@ func c18SocksEnumerate(sh *evidence.Shard) {
 		p2.Exhaustive = false
 		p2.Note("deadline reached inside the chunking enumeration; the truncation product and earlier streams are complete")
 	}
+
+	// (3) repetition inside one connection: k well-formed username/password sub-negotiations that all
+	// carry WRONG credentials, one after the other, then a request. RFC 1929 section 2: after a failure
+	// status the server MUST close the connection, and by the property no AuthFunc call ever accepted
+	// anything, so nothing behind the first rejected attempt may reach HyClient.TCP/UDP. The reference
+	// reader stops at the first attempt ("up-wrong"); the clauses of c18RunInner judge the run.
+	// Added after the independently seeded change C18-9 (a retry loop of 3 user/pass attempts that
+	// fell through to "authenticated" when the attempts ran out).
+	p3 := sh.Part("socks-repeated-userpass", "enum")
+	maxRep := 6
+	if th {
+		maxRep = 8
+	}
+	wrong := []c18UP{{true, 1, "x", "p"}, {true, 1, "u", "y"}, {true, 1, "x", "y"}}
+	tails := []c18Req{
+		{5, 1, 1, c18AddrForms[0].addr, 80}, // CONNECT 1.2.3.4:80
+		{5, 1, 3, c18AddrForms[1].addr, 80}, // CONNECT a.b:80
+		{5, 3, 1, c18AddrForms[0].addr, 80}, // UDP ASSOCIATE
+	}
+	p3.Alphabet = map[string]any{
+		"negotiation":  "05 01 02 | 05 02 00 02",
+		"repetitions":  fmt.Sprintf("k = 1..%d well-formed user/pass messages in a row, every sequence over the wrong credentials {x:p, u:y, x:y}", maxRep),
+		"request":      "CONNECT 1.2.3.4:80 | CONNECT a.b:80 | UDP ASSOCIATE, then the pipelined 05 02 'P'",
+		"delivery":     "whole stream in one read; every truncation; one read per message (client waits for each answer), with and without zero-length reads; byte at a time",
+		"auth":         "AuthFunc accepts only (u,p); every whole stream also after another connection completed an authenticated CONNECT on the same Server",
+		"max_attempts": maxRep,
+	}
+	p3.Bounds = map[string]any{"repetitions": maxRep, "wrong_credentials": len(wrong), "requests": len(tails)}
+	negs3 := []c18Neg{{5, 1, []byte{2}}, {5, 2, []byte{0, 2}}}
+	seq := make([]int, 0, maxRep)
+	var rep func(k int)
+	emit := func() {
+		for _, n := range negs3 {
+			for _, r := range tails {
+				s := n.bytes()
+				bounds := []int{len(s)} // message boundaries
+				for _, w := range seq {
+					s = append(s, wrong[w].bytes()...)
+					bounds = append(bounds, len(s))
+				}
+				s = append(s, r.bytes()...)
+				bounds = append(bounds, len(s))
+				s = append(s, c18Payload...)
+				s = append(make([]byte, 0, len(s)), s...)
+				for l := len(s); l >= 0; l-- {
+					if !mine() {
+						continue
+					}
+					x.one(p3, &c18Case{Stream: s[:l:l], Auth: true}, l < len(s))
+				}
+				if mine() {
+					x.one(p3, &c18Case{Stream: s, Auth: true, Warm: true}, false)
+				}
+				every := make([]int, 0, len(s))
+				for i := 1; i < len(s); i++ {
+					every = append(every, i)
+				}
+				for _, cuts := range [][]int{bounds, every} {
+					for _, z := range []bool{false, true} {
+						if !mine() {
+							continue
+						}
+						x.one(p3, &c18Case{Stream: s, Cuts: cuts, Zero: z, Auth: true}, false)
+					}
+				}
+			}
+		}
+	}
+	rep = func(k int) {
+		if len(seq) > 0 {
+			emit()
+		}
+		if k == maxRep || expired {
+			return
+		}
+		for w := range wrong {
+			seq = append(seq, w)
+			rep(k + 1)
+			seq = seq[:len(seq)-1]
+		}
+	}
+	rep(0)
+	if expired {
+		p3.Exhaustive = false
+		p3.Note("deadline reached inside the repeated user/pass enumeration")
+	}
 }
 
 func c18SocksReplay(part string, raw json.RawMessage) (bool, bool, string) {
-	if part != "socks-truncations" && part != "socks-chunkings" {
+	if part != "socks-truncations" && part != "socks-chunkings" && part != "socks-repeated-userpass" {
 		return false, false, ""
 	}
 	var c c18Case
